@@ -516,7 +516,10 @@ func (t *relTotals) roundTripFlag(stream string, doc JV, ec *EvalCase) {
 				dv = &doc.O[i].V
 			}
 		}
-		if dv != nil && dv.K == 'n' && dv.N < 0 && onlyDebugDiffers(&v, &v2) {
+		// signature of the finding: the document's date is negative and the step that fails to be a
+		// fixed point (RT v versus RT RT v) differs in that one field only (v itself may differ from
+		// RT v also by a dropped bucket-less rollout, which is documented and checked below)
+		if dv != nil && dv.K == 'n' && dv.N < 0 && err3 == nil && onlyDebugDiffers(&v2, &v3) {
 			if k := knownFor("C15", "debugEventsUntilDate-negative"); k != nil {
 				if !t.knownSeen[k.id] {
 					t.knownSeen[k.id] = true
@@ -531,7 +534,7 @@ func (t *relTotals) roundTripFlag(stream string, doc JV, ec *EvalCase) {
 			}
 		}
 		t.violation(stream, "decode(encode(v)) is not a fixed point after one step", map[string]any{"doc": docText(doc), "encoded1": string(e1), "encoded2": string(e2),
-			"v": json.RawMessage(d1), "rt": json.RawMessage(d2)})
+			"v": d1, "rt": d2})
 		return
 	}
 	t.sample(map[string]any{"doc": docText(doc), "canonical": string(e1)})
